@@ -97,11 +97,24 @@ def objs_prog(draw):
     if draw(st.booleans()):
         # a volatile borrower that is closed forcefully at the end of the scope while it holds its share
         kids.append({'name': 'rz', 'volatile': True, 'steps': [{'op': 'borrow', 'r': 'R', 'amounts': {'a': 1}, 'body': [{'op': 'sleep', 'd': 50}]}]})
+    nflags = 0
+    if draw(st.booleans()):
+        # the model's flags: somebody guards a block by `until(a | b)` / `until(a & b)` (left when its body ends, or when
+        # the condition fires), somebody else raises a flag for a while - not necessarily in the same run
+        nflags = 2
+        cnd = [draw(st.sampled_from(['or', 'or', 'and'])), ['flag', 0], ['flag', 1]]
+        if draw(st.integers(0, 2)):
+            kids.append({'name': 'fw', 'steps': [sl(), {'op': 'until', 'name': 'FU', 'notif': cnd, 'catch': True, 'children': [],
+                                                      'body': [{'op': 'sleep', 'd': draw(st.sampled_from([0.5, 1, 3]))}]}, {'op': 'mark', 'v': 'fw'}]})
+        if draw(st.booleans()):
+            i = draw(st.integers(0, 1))
+            kids.append({'name': 'fs', 'steps': [{'op': 'sleep', 'd': draw(st.sampled_from([0.25, 0.75, 2]))}, {'op': 'set_flag', 'i': i, 'v': True},
+                                                 {'op': 'sleep', 'd': 0.5}, {'op': 'set_flag', 'i': i, 'v': False}]})
     kids = [kids[i] for i in draw(st.permutations(list(range(len(kids)))))]
     if any(k['name'] == 'rk' for k in kids):            # the victim exists before it is cancelled
         kids = [k for k in kids if k['name'] == 'rv'] + [k for k in kids if k['name'] != 'rv']
     return {'start': draw(st.sampled_from([0, 0, 5])),
-            'objs': {'shared': True, 'locks': 1, 'queues': 1, 'channels': 1, 'resources': [{'kind': draw(st.sampled_from(['cap', 'res'])),
+            'objs': {'shared': True, 'flags': nflags, 'locks': 1, 'queues': 1, 'channels': 1, 'resources': [{'kind': draw(st.sampled_from(['cap', 'res'])),
                                                                                          'name': 'R', 'levels': {'a': 3}}]},
             'roots': [{'name': 'r0', 'steps': [{'op': 'scope', 'name': 'S', 'children': kids, 'body': [], 'catch': True},
                                                 {'op': 'levels', 'r': 'R'}]}]}
